@@ -39,6 +39,7 @@ func genConf(r *gen.Rand) conf {
 	cf.VStore = r.Bool()
 	cf.CacheCtl = r.Chance(1, 4)
 	cf.Polite = cf.VStore && cf.Inv && r.Chance(2, 3)
+	cf.ReuseCtx = r.Bool()
 	return cf
 }
 
@@ -67,6 +68,70 @@ func genSize(r *gen.Rand, max int) int {
 	return r.Range(0, 4096)
 }
 
+// ccSpell writes a request Cache-Control value that carries `directive` as one element of a list:
+// first / middle / last, other (valid) directives around it, with and without the optional
+// white space around the commas (RFC 9110 5.6.1). loose additionally spells the directive in
+// upper or mixed case.
+func ccSpell(r *gen.Rand, directive string, loose bool) string {
+	others := []string{"max-age=0", "no-transform", "only-if-cached", "max-stale=5", "min-fresh=1", "max-age=3600", "stale-if-error=9"}
+	d := directive
+	if loose {
+		switch r.Intn(3) {
+		case 0:
+			d = strings.ToUpper(d)
+		case 1:
+			d = strings.ToUpper(d[:1]) + d[1:4] + strings.ToUpper(d[4:])
+		default:
+			d = strings.ToUpper(d[:1]) + d[1:3] + strings.ToUpper(d[3:4]) + d[4:]
+		}
+	}
+	n := r.Intn(4) // number of other directives
+	if n == 0 && r.Bool() {
+		n = 1
+	}
+	gen.Shuffle(r, others)
+	parts := append([]string(nil), others[:n]...)
+	pos := r.Intn(n + 1)
+	parts = append(parts[:pos], append([]string{d}, parts[pos:]...)...)
+	var sb strings.Builder
+	for i, p := range parts {
+		if i > 0 {
+			sb.WriteString([]string{",", ",", ", ", ", ", " ,", " , ", ",\t", ",  "}[r.Intn(8)])
+		}
+		sb.WriteString(p)
+	}
+	return sb.String()
+}
+
+// ccGen decides the Cache-Control of a generated request: plain / no-cache / no-store in the
+// literal documented spelling or as a list element, and a small share of mixed-case spellings
+// that carry no expectation.
+func ccGen(r *gen.Rand, q *rq, pNoCache, pNoStore, den int) {
+	k := r.Intn(den)
+	var d string
+	switch {
+	case k < pNoCache:
+		d = "no-cache"
+	case k < pNoCache+pNoStore:
+		d = "no-store"
+	default:
+		return
+	}
+	if r.Chance(1, 6) {
+		q.CCLoose = d
+		q.CC = ccSpell(r, d, true)
+		return
+	}
+	if d == "no-cache" {
+		q.NoCache = true
+	} else {
+		q.NoStore = true
+	}
+	if r.Chance(3, 4) {
+		q.CC = ccSpell(r, d, false)
+	}
+}
+
 func genReq(r *gen.Rand, cf conf, nkeys int) rq {
 	q := rq{Key: fmt.Sprintf("k%d", r.Intn(nkeys))}
 	switch r.Intn(20) {
@@ -81,12 +146,7 @@ func genReq(r *gen.Rand, cf conf, nkeys int) rq {
 	default:
 		q.Method = "GET"
 	}
-	switch r.Intn(12) {
-	case 0:
-		q.NoCache = true
-	case 1:
-		q.NoStore = true
-	}
+	ccGen(r, &q, 3, 2, 24)
 	if cf.Inv && r.Chance(1, 8) {
 		q.Inv = true
 	}
